@@ -280,9 +280,15 @@ def loc(mod, node):
 class ModuleFold:
     """Constant folding of module-level initialisation code (assignments, for-loops over literal ranges,
     subscript / slice stores into literal lists).  Used for tables that are built by loops rather than displays."""
-    def __init__(self, repo, modname):
+    def __init__(self, repo, modname, env=None, opaque=None):
         self.repo, self.modname = repo, modname
-        self.env = {}
+        self.env = dict(env or {})
+        self.opaque = opaque
+
+    def exec(self, stmts):
+        for st in stmts:
+            self.stmt(st)
+        return self.env
 
     def run(self, stmts, wanted):
         """Fold the module-level statements that define or update the names in `wanted`."""
@@ -293,13 +299,16 @@ class ModuleFold:
         return {k: self.env.get(k) for k in wanted}
 
     def lit(self):
-        return Lit(self.repo, self.modname, self.env)
+        return Lit(self.repo, self.modname, self.env, self.opaque)
 
     def stmt(self, st):
         if isinstance(st, ast.Assign):
             v = self.lit().ev(st.value)
             for tg in st.targets:
                 self.store(tg, v)
+        elif isinstance(st, ast.Try):
+            for s in st.body:
+                self.stmt(s)
         elif isinstance(st, ast.AugAssign):
             cur = self.lit().ev(st.target)
             v = _BIN[type(st.op)](cur, self.lit().ev(st.value))
